@@ -107,4 +107,8 @@ class Timer:
         self.start()
 
     def _unset_task(self, task: asyncio.Future):
-        self._task = None
+        # Only clear the task if it is still the current one: after a
+        # reschedule this callback runs for the cancelled task while `_task`
+        # already refers to the newly started one
+        if self._task is task:
+            self._task = None
